@@ -229,6 +229,15 @@ def check(rep, ctx):
     for row in custom_type_rows(ctx):
         rep.check(R17, row["ok"], construct="codegen.generate_schema:CustomTypeDef.get_definition", stmt=row["case"], message=row["message"],
                   file="codegen/generate_schema.py", line=0)
+    from ..gen_tables import primitive_array_lines
+    R18 = rep.rule("C16-G18-primitive-arrays", "the line emitted for an array of primitives carries the definition's name, tag and nullability "
+                   "for the version", floor=4)
+    pa_problems, pa_cases = primitive_array_lines(ctx)
+    for aspect, probs in pa_problems.items():
+        rep.check(R18, not probs, construct="codegen.generate_schema:generate_primitive_array_field", stmt=f"{aspect} of primitive array fields",
+                  message=f"{len(probs)} of {pa_cases} definition x version cases: " + "; ".join(probs[:3]) +
+                          (" -- an array of primitives that the definition declares nullable (nullableVersions) is generated as a non-nullable "
+                           "tuple[T, ...]" if aspect == "nullability" else ""), file=gsrc.rel, line=0)
     R8 = rep.rule("C16-G8-field", "format_dataclass_field: an explicit default is emitted as given whatever the tagging/ignorability; "
                   "metadata carries the kafka type and the tag iff tagged", floor=40,
                   necessary_because="ApiVersionsResponse.FinalizedFeaturesEpoch is tagged, ignorable and has default -1: it must stay -1")
